@@ -38,6 +38,13 @@ pub fn bases() -> Vec<Base> {
         Base { name: "int-range-ext", template: "T ::= INTEGER ({0}..{1},...)", sites: vec![int("1", "range-lower"), int("7", "range-upper")] },
         Base { name: "int-lower-to-max", template: "T ::= INTEGER ({0}..MAX)", sites: vec![int("3", "range-lower")] },
         Base { name: "int-zero-to-max", template: "T ::= INTEGER ({0}..MAX)", sites: vec![int("0", "range-lower-zero-with-max")] },
+        // the forms that are folded to "no bound" keep their extension marker
+        Base { name: "int-zero-to-max-ext", template: "T ::= INTEGER ({0}..MAX,...)", sites: vec![int("0", "range-lower-zero-with-max")] },
+        Base { name: "int-min-to-i64max-ext", template: "T ::= INTEGER (MIN..{0},...)", sites: vec![int("9223372036854775807", "range-upper-i64max")] },
+        Base { name: "int-min-to-i64max", template: "T ::= INTEGER (MIN..{0})", sites: vec![int("9223372036854775807", "range-upper-i64max")] },
+        Base { name: "int-zero-to-i64max-ext", template: "T ::= INTEGER ({0}..{1},...)", sites: vec![int("0", "range-lower-zero"), int("9223372036854775807", "range-upper-i64max")] },
+        Base { name: "int-lower-to-max-ext", template: "T ::= INTEGER ({0}..MAX,...)", sites: vec![int("3", "range-lower")] },
+        Base { name: "int-min-to-upper-ext", template: "T ::= INTEGER (MIN..{0},...)", sites: vec![int("9", "range-upper")] },
         Base { name: "int-min-to-upper", template: "T ::= INTEGER (MIN..{0})", sites: vec![int("9", "range-upper")] },
         Base { name: "int-upper-i64max", template: "T ::= INTEGER ({0}..{1})", sites: vec![int("1", "range-lower"), int("9223372036854775807", "range-upper-i64max")] },
         Base { name: "size-range", template: "T ::= OCTET STRING (SIZE({0}..{1}))", sites: vec![int("1", "size-lower"), int("4", "size-upper")] },
